@@ -644,8 +644,9 @@ pub enum ShaderStorage<'a, 'b> {
 // a reference to it. The goal is to avoid a heap allocation but the end
 // result is pretty ugly.
 pub fn choose_shader<'a, 'b, 'c>(ti: &Transform, src: &'b Source<'c>, alpha: f32, shader_storage: &'a mut ShaderStorage<'b, 'c>) -> &'a dyn Shader {
-    // XXX: clamp alpha
-    let alpha = (alpha * 255. + 0.5) as u32;
+    // clamp alpha: the float to int cast saturates negative values and NaN to 0
+    // but values above 1 would overflow the 8 bit alpha math below
+    let alpha = ((alpha * 255. + 0.5) as u32).min(255);
 
     *shader_storage = match src {
         Source::Solid(c) => {
